@@ -422,6 +422,11 @@ def corpus():
                                 ["Get", "ab_"], ["Set", "ab", 5], ["Rem", "ab"], ["Get", "ab_"], ["Set", "ab_", 1],
                                 ["Get", "ab"], ["Add", "ab", MAPS[1]], ["Get", "ab_"], ["Del", "ab"], ["Rem", "ab"],
                                 ["Get", "ab_"], ["Get", "ab"]]))
+    # the non-vacuity Example of the second main theorem (Props.v, mapped_theorem_nontrivial)
+    cs.append(dict({"classes": [{"decls": [["a_", ["Typed", "VInt", 7]]], "bases": [1]}], "cls": 3}, kind="corpus",
+                   ops=[["Set", "ab_", 5], ["Get", "b"], ["Add", "b", ["Any", 5]], ["Set", "b", 6], ["Add", "ab", MAPS[0]],
+                        ["Get", "ab_"], ["Get", "ab"], ["Set", "ab", 2], ["Get", "ab_"], ["Set", "ab", 5], ["Set", "ab_", 9],
+                        ["Set", "ab", 2], ["Del", "ab"], ["Del", "ab_"], ["Get", "ab_"], ["Rem", "ab"]]))
     # List instance trait: the name_items event trait comes and goes with it
     for root in (0, 1, 2):
         cs.append(dict({"classes": [{"decls": [["b_", ["Any", 5]]], "bases": [root]}], "cls": 3}, kind="corpus",
